@@ -41,7 +41,8 @@ pub fn tokenize(input: &str) -> Vec<Token> {
             '0'..='9' | '-' => {
                 tokens.push(parse_number(&mut chars));
             }
-            ':' | ',' | '=' | '>' | '<' | '!' | '.' => {
+            // '+' is the exponent sign of a JSON number (`1e+300`) in a STORE payload
+            ':' | ',' | '=' | '>' | '<' | '!' | '.' | '+' => {
                 tokens.push(Token::Symbol(chars.next().unwrap()));
             }
             '[' => {
